@@ -24,6 +24,7 @@ import (
 	"github.com/echovault/sugardb/internal/verifhook"
 	"io"
 	"net"
+	"slices"
 	"strings"
 )
 
@@ -105,6 +106,50 @@ func (server *SugarDB) getHandlerFuncParams(ctx context.Context, cmd []string, c
 	}
 }
 
+// lockCommand takes the command lock in the mode the command needs: exclusive for a command that writes,
+// shared for a command that only reads, and not at all for commands that do not touch the keyspace
+// (connection, pub/sub and admin commands synchronise on their own). It returns the function that releases it.
+func (server *SugarDB) lockCommand(command internal.Command, subCommand internal.SubCommand) func() {
+	switch {
+	case slices.Contains(command.Categories, constants.WriteCategory) ||
+		slices.Contains(subCommand.Categories, constants.WriteCategory):
+		server.commandLock.Lock()
+		return server.commandLock.Unlock
+	case slices.Contains(command.Categories, constants.ReadCategory) ||
+		slices.Contains(subCommand.Categories, constants.ReadCategory):
+		server.commandLock.RLock()
+		return server.commandLock.RUnlock
+	}
+	return func() {}
+}
+
+// lockedCommand returns the command with its handlers (and those of its subcommands) wrapped so that they
+// run under the command lock. It is handed to the replication layer, which runs the handlers itself.
+func (server *SugarDB) lockedCommand(cmd string) (internal.Command, error) {
+	command, err := server.getCommand(cmd)
+	if err != nil {
+		return command, err
+	}
+	wrap := func(sub internal.SubCommand, handler internal.HandlerFunc) internal.HandlerFunc {
+		return func(params internal.HandlerFuncParams) ([]byte, error) {
+			defer server.lockCommand(command, sub)()
+			return handler(params)
+		}
+	}
+	locked := command
+	if command.HandlerFunc != nil {
+		locked.HandlerFunc = wrap(internal.SubCommand{}, command.HandlerFunc)
+	}
+	locked.SubCommands = make([]internal.SubCommand, len(command.SubCommands))
+	for i, sub := range command.SubCommands {
+		locked.SubCommands[i] = sub
+		if sub.HandlerFunc != nil {
+			locked.SubCommands[i].HandlerFunc = wrap(sub, sub.HandlerFunc)
+		}
+	}
+	return locked, nil
+}
+
 func (server *SugarDB) handleCommand(ctx context.Context, message []byte, conn *net.Conn, replay bool, embedded bool) ([]byte, error) {
 	// Prepare context before processing the command.
 	server.connInfo.mut.RLock()
@@ -182,6 +227,9 @@ func (server *SugarDB) handleCommand(ctx context.Context, message []byte, conn *
 	}
 
 	if !server.isInCluster() || !synchronize {
+		// The handler and the log record of the command form one atomic step.
+		defer server.lockCommand(command, subCommand)()
+
 		res, err := handler(server.getHandlerFuncParams(ctx, cmd, conn))
 		if err != nil {
 			return nil, err
